@@ -21,6 +21,7 @@ META = {
     "required_counters": ["must_accept", "must_reject", "redirect_cases", "truncation_cases"],
     "assumptions": [],
 }
+META["claim"] += " " + "Also: status tokens that merely begin with 101, interim 1xx heads carrying the upgrade headers, a required header's text smuggled into an over-long unrelated line at power-of-two offsets, and the wait for the response ended from outside (KeyboardInterrupt) at every byte."
 
 STATUSES = [100, 101, 101, 101, 101, 200, 204, 300, 304, 400, 401, 403, 404, 426, 500, 503, 999, "1015", "1010", "101x", "0101", "101.0", "10", "1101", "102", "103"]
 UPGRADE = [("websocket", True), ("WebSocket", True), ("websocket, foo", True), ("foo,websocket", True), ("  websocket  ", True),
